@@ -13,6 +13,10 @@ of one harness component with analytic partials; constraints select elements wit
 (+ `alias`), carry per-element bound patterns (scalar / array, +-INF_BOUND for "not set",
 non-uniform patterns), `scaler/adder` or `ref/ref0` (scalar / array), `units`; design variables
 carry bounds, scaling and units as well.  Every case is run under two different driver scalings.
+About a quarter of the cases (and the first six of every stream) are parameter studies: the same
+Problem / driver is run two or three times, with the rows and constants of the outputs and the
+linear term of the objective - ordinary non-design inputs - changed by `set_val` in between; every
+run has its own planted optimum and is judged like a case of its own.
 
 `scipy.optimize.minimize` as imported by `openmdao.drivers.scipy_optimizer` is wrapped (`Capture`):
 the `constraints` / `bounds` the real driver built are kept and every callback call is logged.
@@ -1358,7 +1362,10 @@ class C21(Property):
             "indices/alias, per-element bound patterns (lower / upper / both / none / equals, scalar "
             "or array, +-INF_BOUND for 'not set', non-uniform), linear=True/False, scaler/adder or "
             "ref/ref0 (scalar/array) and units on design variables, constraints and objective, x "
-            "{SLSQP, COBYLA, trust-constr}; every case is run under two driver scalings; a small "
+            "{SLSQP, COBYLA, trust-constr}; every case is run under two driver scalings; ~25% of the cases "
+            "(and the first six) re-run the same Problem 2-3 times after set_val on the non-design "
+            "inputs holding the constraint rows/constants and the objective's linear term (own planted "
+            "optimum per run, linear=True constraints with changed rows active in the head cases); a small "
             "stream has a negative constraint scaler, an infeasible problem or a tiny iteration "
             "limit. Non-trivial: at least one of the two runs reports success; distinct by canonical "
             "case encoding.")
